@@ -2036,6 +2036,15 @@ impl StorageEngine {
         let shard = self.get_shard(db, &key)?;
         let mut shard_guard = shard.write().unwrap();
         
+        // Writing nothing changes nothing: no padding, no new key, the reply is the current length
+        if value.is_empty() {
+            return match shard_guard.data.get(&key).map(|stored_value| &stored_value.value) {
+                Some(Value::String(bytes)) => Ok(bytes.len()),
+                Some(_) => Err(StorageError::WrongType.into()),
+                None => Ok(0),
+            };
+        }
+        
         let new_len = if let Some(stored_value) = shard_guard.data.get_mut(&key) {
             match &mut stored_value.value {
                 Value::String(bytes) => {
